@@ -53,6 +53,19 @@ func countingLoops(fn *ssa.Function) []*fwdLoop {
 			x, y = y, x
 			op = token.LSS
 		}
+		neq := false
+		if op == token.NEQ {
+			// `i != B` counts exactly like `i < B` when i starts at 0, steps by 1 and B is a length
+			// (form (B) below; B >= 0 because it is a len)
+			if _, isLen := stripConv(x).(*ssa.Call); isLen {
+				x, y = y, x
+			}
+			if ln, isLn := stripConv(y).(*ssa.Call); !isLn || !isBuiltin(ln, "len") {
+				continue
+			}
+			neq = true
+			op = token.LSS
+		}
 		if op != token.LSS {
 			continue
 		}
@@ -87,7 +100,7 @@ func countingLoops(fn *ssa.Function) []*fwdLoop {
 				idx = v
 			}
 		case *ssa.BinOp: // (A)
-			if v.Op != token.ADD {
+			if v.Op != token.ADD || neq {
 				continue
 			}
 			phi, isPhi := v.X.(*ssa.Phi)
@@ -138,7 +151,7 @@ func (fl *fwdLoop) elemOf(v ssa.Value) bool {
 
 type fwdResultSSA struct {
 	ok       bool
-	collect  *ssa.Phi // loop-carried collecting list (header phi)
+	collect  ssa.Value // the collecting list: loop-carried header phi (append form) or the pre-sized slice (index form)
 	callVals []ssa.Value
 }
 
@@ -346,7 +359,42 @@ func (c *Ctx) checkForwarderSSA(rule string, sp fwdSpec) fwdResultSSA {
 			}
 		}
 		if app == nil {
-			return fail(lp.Header.Instrs[0].Pos(), "the child's handle is not appended to the list of handles: it is dropped")
+			// index form: list := make([]T, len(children)); list[i] = child.M(...) in every iteration
+			var target *ssa.MakeSlice
+			for b := range lp.Blocks {
+				for _, in := range b.Instrs {
+					st, ok := in.(*ssa.Store)
+					if !ok || len(res.callVals) != 1 || canon(stripConv(st.Val)) != res.callVals[0] {
+						continue
+					}
+					ia, isIA := st.Addr.(*ssa.IndexAddr)
+					if !isIA || stripConv(canon(ia.Index)) != stripConv(canon(fl.idx)) {
+						continue
+					}
+					ms, isMS := stripConv(canon(ia.X)).(*ssa.MakeSlice)
+					if !isMS {
+						continue
+					}
+					// len(list) == len(children): make(T, len(children)) with the same list
+					if ln, isLn := stripConv(ms.Len).(*ssa.Call); isLn && isBuiltin(ln, "len") && accessPath(ln.Call.Args[0]) == fl.list {
+						every := true
+						for _, latch := range lp.Latch {
+							if !st.Block().Dominates(latch) {
+								every = false
+							}
+						}
+						if every {
+							target = ms
+						}
+					}
+				}
+			}
+			if target == nil {
+				return fail(lp.Header.Instrs[0].Pos(), "the child's handle is not appended to the list of handles: it is dropped")
+			}
+			res.collect = target
+			c.ok(rule, key, lp.Header.Instrs[0].Pos(), fmt.Sprintf("one loop over every index of %s; %s on children[i] with the method's own parameters, stored at handles[i] of a fresh slice of the same length", wantList, sp.target))
+			return res
 		}
 		phi, isPhi := stripConv(app.Call.Args[0]).(*ssa.Phi)
 		if !isPhi || phi.Block() != lp.Header {
